@@ -345,6 +345,13 @@ def check(ctx):
     import c02
     n5 = core.adopt(ctx, c02, lambda o: o["rule"] == "C02.d" and "one-runner-call-per-path" in o["key"], "C16.d")
     ctx.floor("C16.d", n5, 1, "shared one-runner-call-per-path obligations (C02.d)")
+    # ... and every delivery has a pending entry of its own: `prepare` appends exactly one entry per command and never merges,
+    # overwrites or de-duplicates (two runs of one reactor for two entities may be pending at once; shared with C11.prepared /
+    # C12.a)
+    import c11 as _c11, c12 as _c12
+    n6 = core.adopt(ctx, _c11, lambda o: o["rule"] == "C11.prepared" and "EntityReactionAccessTracker" in o["key"] and "<=" not in o["key"], "C16.e")
+    n6 += core.adopt(ctx, _c12, lambda o: o["rule"] == "C12.a" and "EntityReactionAccessTracker" in o["key"], "C16.e")
+    ctx.floor("C16.e", n6, 3, "shared pending-entry obligations of the entity-reaction tracker (C11.prepared, C12.a)")
     # the entity reported and the entity whose data is read are the same accessor result
     for nm in ("get", "get_mut"):
         try:
